@@ -400,3 +400,15 @@ func HTTPPosts() int { return -1 }
 
 // HTTPPostBody returns the body of the i-th recorded http.Post (engine only).
 func HTTPPostBody(i int) []byte { return nil }
+
+// ---- detector channel (engine only) ----
+
+// PublishedCount: number of messages published on Redis so far (-1 natively).
+func PublishedCount() int { return -1 }
+
+// Published returns the i-th published message (marshalled StationToDetector).
+func Published(i int) []byte { return nil }
+
+// DetectorRule reports whether the named acceptance rule is present in the
+// detector's src/sessions.rs (1 present, 0 absent, -1 not recognised).
+func DetectorRule(name string) int { return -1 }
